@@ -88,9 +88,19 @@ type RaceReport struct {
 
 // setAllocators positions the process-wide identifier allocators as the scenario asks.
 func setAllocators(k *Knobs) {
-	if k.SetPacketIDBase {
+	// The allocators are process-wide: left alone, their position would depend on how many runs the
+	// worker process has executed before (and a bit flip in a quoted IP-ID maps to a different TTL
+	// for a different base). Every run therefore starts from a position fixed by its scenario.
+	pbase, ebase := k.PacketIDBase, k.EchoIDBase
+	if !k.SetPacketIDBase {
+		pbase = uint32(uint64(k.RandSeed)*2654435761) >> 8 & 0xffff
+	}
+	if !k.SetEchoIDBase {
+		ebase = uint32(uint64(k.RandSeed)*40503) >> 4 & 0xffff
+	}
+	{
 		cur := uint32(packets.AllocPacketID(0))
-		delta := (k.PacketIDBase - cur) & 0xffff
+		delta := (pbase - cur) & 0xffff
 		for delta >= 255 {
 			packets.AllocPacketID(255)
 			delta -= 255
@@ -99,9 +109,7 @@ func setAllocators(k *Knobs) {
 			packets.AllocPacketID(uint8(delta))
 		}
 	}
-	if k.SetEchoIDBase {
-		icmp.VerifSetEchoIDBase(k.EchoIDBase)
-	}
+	icmp.VerifSetEchoIDBase(ebase)
 }
 
 // Execute runs one scenario in a fresh bubble and returns what happened.
